@@ -43,7 +43,9 @@ theorem readFloat_showInt (i : Int) : readFloat (showInt i) = .ok (i : Rat) := b
   obtain ⟨h1, h2, h3⟩ := hspec
   have hspan := span_all isDig _ (allDig_all_isDig h3)
   unfold readFloat
-  rw [strip_of_noWs _ (showInt_noWs i)]
+  rw [numPrep_plain _ (showInt_plain i)]
+  show readFloatA (showInt i) = _
+  unfold readFloatA
   unfold showInt
   by_cases hi : i < 0
   · rw [if_pos hi]
@@ -86,11 +88,16 @@ theorem strip_cons_space (s : Str) : strip (' ' :: s) = strip s := by
   unfold strip lstrip
   rw [List.dropWhile_cons, isWs_space]; rfl
 
+theorem numPrep_cons_space (s : Str) : numPrep (' ' :: s) = numPrep s := by
+  unfold numPrep
+  have : isSep ' ' = false := by decide +kernel
+  rw [List.any_cons, this, Bool.false_or, strip_cons_space]
+
 theorem readInt_cons_space (s : Str) : readInt (' ' :: s) = readInt s := by
-  unfold readInt; rw [strip_cons_space]
+  unfold readInt; rw [numPrep_cons_space]
 
 theorem readFloat_cons_space (s : Str) : readFloat (' ' :: s) = readFloat s := by
-  unfold readFloat; rw [strip_cons_space]
+  unfold readFloat; rw [numPrep_cons_space]
 
 theorem tok_num_int (R : Render) (n : Int) : R.tok (.num (n : Rat)) = showInt n := by
   simp [Render.tok]
